@@ -6,6 +6,7 @@ mod actor;
 mod api;
 mod codec;
 mod docs;
+mod downloads;
 mod heads;
 mod livesync;
 mod netpair;
@@ -136,6 +137,11 @@ fn main() {
             let mut rng = Rng::new(seed);
             api::run(&w, seed, &mut rng, args.num("n", 20) as usize, &dir, &mut trace, &mut sum);
         }
+        "downloads" => {
+            let w = World::new(seed, 3, 3);
+            let mut rng = Rng::new(seed);
+            downloads::run(&w, seed, &mut rng, args.num("n", 20) as usize, &mut trace, &mut sum);
+        }
         "protect" => {
             let w = World::new(seed, 3, 3);
             let mut rng = Rng::new(seed);
@@ -231,5 +237,5 @@ fn cmd_replica(args: &Args, seed: u64, dir: &std::path::Path, trace: &mut Trace,
         };
         histories.push((replica::gen_history(&mut rng, &g), file_every > 0 && i % file_every == 0));
     }
-    replica::run_histories(&w, seed, profile == "c08", &histories, dir, trace, sum);
+    replica::run_histories(&w, seed, profile == "c08", args.num("twin", 0) == 1, &histories, dir, trace, sum);
 }
